@@ -154,6 +154,20 @@ def rule_total_errors(ctx, rid="R17.4"):
                 return self.visit(defs[node.id][0])
             return node
     import copy
+    # an accumulation loop `acc = <init>; for .. in self._contents.items()/values(): acc += len(tree)` is the same sum
+    for n in walk_body(m):
+        if isinstance(n, ast.For) and not n.orelse and len(n.body) == 1 and isinstance(n.body[0], ast.AugAssign) and isinstance(n.body[0].op, ast.Add) \
+                and isinstance(n.body[0].target, ast.Name):
+            acc = n.body[0].target.id
+            it = norm(n.iter)
+            tv = None
+            if it == "%s._contents.items()" % s and isinstance(n.target, ast.Tuple) and len(n.target.elts) == 2:
+                tv = norm(n.target.elts[1])
+            elif it == "%s._contents.values()" % s:
+                tv = norm(n.target)
+            if tv is not None and norm(n.body[0].value) in ("len(%s)" % tv, "%s.total_errors" % tv) and len(defs.get(acc, [])) == 1:
+                gen = ast.parse("sum(len(t) for t in %s._contents.values())" % s, mode="eval").body
+                defs[acc] = [ast.BinOp(left=defs[acc][0], op=ast.Add(), right=gen)]
     expr = Inl().visit(copy.deepcopy(rets[0].value))
     txt = norm(expr)
     # flatten a sum
@@ -183,7 +197,7 @@ def rule_total_errors(ctx, rid="R17.4"):
             child_total = tv is not None and elt in ("len(%s)" % tv, "%s.total_errors" % tv)
             if whole and child_total:
                 kids.append(t)
-    others = [t for t in terms if t not in own and t not in kids]
+    others = [t for t in terms if t not in own and t not in kids and not (isinstance(t, ast.Constant) and t.value == 0)]
     if len(own) == 1:
         r.ok(site(m), "counts its own errors: len(self.errors)")
     else:
